@@ -144,6 +144,18 @@
 #define CNL_BUILTIN_OVERFLOW_ENABLED
 #endif
 
+// verification hook H1 (off unless JOHNMCFARLANE_CNL_VERIF is defined):
+// select the overflow-detection path irrespective of the compiler
+#if defined(JOHNMCFARLANE_CNL_VERIF) && defined(JOHNMCFARLANE_CNL_VERIF_OVERFLOW_PATH)
+#if JOHNMCFARLANE_CNL_VERIF_OVERFLOW_PATH == 1
+#if !defined(CNL_BUILTIN_OVERFLOW_ENABLED)
+#define CNL_BUILTIN_OVERFLOW_ENABLED
+#endif
+#elif JOHNMCFARLANE_CNL_VERIF_OVERFLOW_PATH == 2
+#undef CNL_BUILTIN_OVERFLOW_ENABLED
+#endif
+#endif
+
 ////////////////////////////////////////////////////////////////////////////////
 // int-to-string macro
 
